@@ -36,6 +36,9 @@ EXPLANATION = (
     "same folded constant the loop slices by. R3/R4: slice bounds, format "
     "strings and argument orders are compared as folded constants / normal "
     "forms.")
+EXPLANATION += (
+    " R3 also splits on which of the two file arguments are None and "
+    "requires open() to be given the caller's path for each that is not.")
 NOT_DECIDED = ["timing (boot_delay)", "the boot ROM's acceptance of the "
                "image", "that the number of loop iterations equals the "
                "announced count is argued from the slice structure (each "
